@@ -1,6 +1,7 @@
 #![allow(clippy::all)]
 #![allow(deprecated)]
 pub mod exec;
-pub mod r#gen;
+pub mod harness;
+pub mod genr;
 pub mod props;
 pub mod refimpl;
